@@ -1217,7 +1217,28 @@ def shared_source_shape(prog: Program) -> bool:
             return is_const(e.l) and is_const(e.r)
         return False
 
-    uses: dict = {}  # root name -> list of (node id, number of non-constant operands of that node)
+    uses: dict = {}  # source key -> list of (node id, number of distinct non-constant operands of that node)
+
+    def key(e, depth=0):
+        e = strip(e)
+        if depth > 40:
+            return ("deep", id(e))
+        if isinstance(e, Ref):
+            d = decls.get(e.name)
+            if d is None or d.kind != "Signal" or is_input_decl(d):
+                return ("n", e.name)
+            return key(d.e, depth + 1)
+        if isinstance(e, Num):
+            return ("c", e.v)
+        if isinstance(e, Bin):
+            return ("b", e.op, key(e.l, depth + 1), key(e.r, depth + 1))
+        if isinstance(e, Un):
+            return ("u", e.op, key(e.e, depth + 1))
+        if isinstance(e, Proj):
+            return ("p", key(e.e, depth + 1), repr(e.ty))
+        if isinstance(e, Cond):
+            return ("?", key(e.c, depth + 1), key(e.v, depth + 1))
+        return ("x", repr(e))
 
     def operands(e):
         e = strip(e)
@@ -1240,11 +1261,12 @@ def shared_source_shape(prog: Program) -> bool:
         ops = operands(e)
         if ops:
             live = [strip(o) for o in ops if not is_const(o)]
-            # distinct sources at this combinator: a name counts once however often it is written
-            distinct = len({("n", root(o.name)) if isinstance(o, Ref) else ("a", id(o)) for o in live})
-            for o in live:
-                if isinstance(o, Ref):
-                    uses.setdefault(root(o.name), []).append((id(e), distinct))
+            # sources are identified by what they compute, not by how they are named: two names (or two anonymous
+            # sub-expressions) with the same defining expression are one combinator once CSE has run
+            keys = [key(o) for o in live]
+            distinct = len(set(keys))
+            for k in set(keys):
+                uses.setdefault(k, []).append((id(e), distinct))
             for o in ops:  # the absorbed comparison / chain parts are this same combinator: go on below them
                 visit(o)
             return
